@@ -9,6 +9,8 @@ use indicatif::{ProgressBar, ProgressDrawTarget};
 use serde_json::{json, Value};
 
 pub struct C16 {
+    /// terminal width (80; 6 = narrower than the default tab width)
+    pub w: usize,
     pub tpl0: usize,
     pub initial_tab: Option<usize>,
     /// builder order: 0 = with_style, with_tab_width; 1 = with_tab_width, with_style;
@@ -19,7 +21,7 @@ pub struct C16 {
 impl C16 {
     fn config(&self) -> String {
         let order = ["", " builder order tab-width,style", " builder order message,prefix,tab-width,style", " builder order tab-width,message,prefix,style"][self.order as usize];
-        format!("initial_template={} with_tab_width={:?}{order}", self.tpl0, self.initial_tab)
+        format!("initial_template={} with_tab_width={:?}{order}{}", self.tpl0, self.initial_tab, if self.w != 80 { format!(" terminal width {}", self.w) } else { String::new() })
     }
 }
 
@@ -42,6 +44,7 @@ impl Hist for C16 {
             BOp::StyleRoundTrip,
             BOp::StyleSave,
             BOp::StyleRestore,
+            BOp::Reset,
             BOp::FinishMsg("f\t"),
             BOp::Msg("\t\t"),
         ]
@@ -49,7 +52,7 @@ impl Hist for C16 {
 
     fn run(&self, hist: &[BOp], stats: &mut Stats) -> Verdict {
         clock::reset();
-        let spy = Spy::new(80, 12, false);
+        let spy = Spy::new(self.w, 40, false);
         let mut pb = ProgressBar::with_draw_target(Some(5), ProgressDrawTarget::term_like(spy.boxed()));
         let mut rf = RefState::new(Some(5), Fin::AndClear, self.tpl0);
         let t = self.initial_tab.unwrap_or(8);
@@ -118,7 +121,7 @@ impl Hist for C16 {
             }
         }
         if let Some(f) = frame {
-            let mut want: Vec<String> = f.iter().flat_map(|l| wrap_rows(l, 80)).collect();
+            let mut want: Vec<String> = f.iter().flat_map(|l| wrap_rows(l, self.w)).collect();
             while want.last().map_or(false, |s| s.is_empty()) {
                 want.pop();
             }
@@ -132,13 +135,16 @@ impl Hist for C16 {
 }
 
 fn configs(tier: Tier) -> Vec<(C16, usize)> {
-    let d = if tier == Tier::Quick { 6 } else { 7 };
-    let mut v = vec![(C16 { tpl0: 2, initial_tab: None, order: 0 }, d), (C16 { tpl0: 0, initial_tab: Some(4), order: 0 }, d - 1), (C16 { tpl0: 1, initial_tab: Some(0), order: 0 }, d - 1)];
+    let d = if tier == Tier::Quick { 5 } else { 7 };
+    let mut v = vec![(C16 { w: 80, tpl0: 2, initial_tab: None, order: 0 }, d), (C16 { w: 80, tpl0: 0, initial_tab: Some(4), order: 0 }, d - 1), (C16 { w: 80, tpl0: 1, initial_tab: Some(0), order: 0 }, d - 1)];
+    // a terminal narrower than the tab width
+    v.push((C16 { w: 6, tpl0: 1, initial_tab: None, order: 0 }, d - 2));
+    v.push((C16 { w: 3, tpl0: 0, initial_tab: Some(4), order: 0 }, d - 2));
     // the other builder orders, every template, shallower
     for order in 1..=3u8 {
         for tpl0 in 0..3 {
             for tab in [0usize, 4] {
-                v.push((C16 { tpl0, initial_tab: Some(tab), order }, d - 2));
+                v.push((C16 { w: 80, tpl0, initial_tab: Some(tab), order }, d - 2));
             }
         }
     }
@@ -156,7 +162,7 @@ pub fn meta(tier: Tier) -> Meta {
         level: "model_checking",
         rule: "stateless DFS over all orders of set_tab_width(0|2|8) / set_style (literal tab, custom key writing a tab, prefix|msg, literal tabs around a brace that stands for itself) / style round trip through pb.style().template(..) / a copy of the bar's style taken earlier and installed again later / set_message / set_prefix / finish_with_message / tick to the stated depth, from three initial configurations (with and without with_tab_width) plus 18 configurations built in the other builder orders (with_tab_width before with_style, with_message/with_prefix before or after with_tab_width); after every operation: no TAB byte reached the terminal, the document equals the reference expansion with the current width, message()/prefix() return the expanded text; non-trivial = an expanded tab or a separator is on screen".into(),
         assumptions: vec!["terminal model 80x12; +1 s virtual time between operations".into()],
-        bounds: json!({"configurations": configs(tier).iter().map(|(c, d)| json!({"config": c.config(), "depth": d, "alphabet": 16})).collect::<Vec<_>>()}),
+        bounds: json!({"configurations": configs(tier).iter().map(|(c, d)| json!({"config": c.config(), "depth": d, "alphabet": 17})).collect::<Vec<_>>()}),
         exhaustive: true,
     }
 }
